@@ -212,13 +212,16 @@ func c17Scenarios(tier string) []*Scenario {
 				if replicas > 1 {
 					pc.Lines = append(pc.Lines, fmt.Sprintf("replicas: %d", replicas))
 				}
+				// every replica fails once and is relaunched by its policy: the relaunch gets the same environment
+				pc.Restart = "on_failure"
 				sc := &Scenario{
-					ID:        fmt.Sprintf("c17-launch-mask%d-r%d-nested%v", mask, replicas, nested),
-					YAML:      projectYAML(global, pc),
-					Procs:     map[string]*ProcScript{"p": {Launches: exits(0)}},
-					EnvCmdOut: map[string]string{"envcmd-x": "fromcmd\n", "envcmd-e": "e\n"},
-					K:         0,
-					Env:       map[string]string{},
+					ID:         fmt.Sprintf("c17-launch-mask%d-r%d-nested%v", mask, replicas, nested),
+					YAML:       projectYAML(global, pc),
+					Procs:      map[string]*ProcScript{"p": {Launches: exits(1, 0)}},
+					TickBudget: 2,
+					EnvCmdOut:  map[string]string{"envcmd-x": "fromcmd\n", "envcmd-e": "e\n"},
+					K:          0,
+					Env:        map[string]string{},
 				}
 				if inh {
 					sc.Env["VHX"] = "inherited"
@@ -285,8 +288,8 @@ func c17Scenarios(tier string) []*Scenario {
 							vs = append(vs, viol("C17", "dir", "working directory %q, want /", f.Dir))
 						}
 					}
-					if n != replicas {
-						vs = append(vs, viol("C17", "launch-count", "%d commands launched, want %d", n, replicas))
+					if n != 2*replicas && w.Outcome == "completed" {
+						vs = append(vs, viol("C17", "launch-count", "%d commands launched, want %d (each replica once more after its failure)", n, 2*replicas))
 					}
 					return vs
 				}
